@@ -239,6 +239,10 @@ def run(ctx):
             if kw.arg == 'generation':
                 g = kw.value
         ok, val = False, None
+        if isinstance(g, ast.Name) and g.id not in f.params() and not any(isinstance(x, ast.Name) and x.id == g.id and isinstance(x.ctx, ast.Store) for x in f.body_nodes()):
+            r_ = repo.lookup(f.module, g.id)       # a module-level constant
+            if r_ and r_[0] == 'var' and r_[1] is not None:
+                g = r_[1]
         try:
             val = ast.literal_eval(g)
             ok = val == -1
@@ -300,7 +304,7 @@ def run(ctx):
                 nb += 1
                 ctx.check(c.name == 'UnresolvedObject', 'C02.4', 'backend-ctor:%s:%s' % (c.name, f.qual), f.loc(s.node),
                           'back end constructs only UnresolvedObject', 'back end %s constructs %s directly' % (f.short, c.name))
-    ctx.floor('C02.4', nb, 7, 'object constructor sites in back ends')
+    ctx.floor('C02.4', nb, 3, 'object constructor sites in back ends')
 
     # ---- C02.5 no retyping / relabelling ----------------------------------------------------------
     for attr in ('id', 'generation', 'connection'):
